@@ -1253,6 +1253,54 @@ def rule_r19(prog, res):
     res.floor('R19', 'bytes-joined error messages in binary decoders', n, 1)
 
 
+def rule_r20(prog, res):
+    res.rule('R20', 'a recursive walker forwards its cycle guard (the '
+             'parameter it tests with "in" before raising) in every '
+             'recursive call')
+    n = 0
+    for fn in prog.all_functions():
+        if not fn.module.name.startswith('spyne.protocol'):
+            continue
+        params = [a.arg for a in fn.node.args.args]
+        rec = [c for c in calls_in(fn.node) if isinstance(c.func, ast.Name)
+               and c.func.id == fn.name and fn.cls is None]
+        if not rec:
+            continue
+        guards_ = set()
+        for r in walk_no_defs(fn.node):
+            if isinstance(r, ast.Raise):
+                for e, pol in flatten_guards(guards_at(r, stop=fn.node)):
+                    for cmp_ in ast.walk(e):
+                        if isinstance(cmp_, ast.Compare) and isinstance(
+                                cmp_.ops[0], (ast.In, ast.NotIn)) and \
+                                isinstance(cmp_.comparators[0], ast.Name) \
+                                and cmp_.comparators[0].id in params:
+                            guards_.add(cmp_.comparators[0].id)
+        for p_ in sorted(guards_):
+            idx = params.index(p_)
+            for c in rec:
+                n += 1
+                arg = c.args[idx] if len(c.args) > idx else None
+                for k in c.keywords:
+                    if k.arg == p_:
+                        arg = k.value
+                ok = arg is not None and any(
+                    isinstance(y, ast.Name) and y.id == p_
+                    for y in ast.walk(arg))
+                where = '%s:%d' % (fn.module.relpath, c.lineno)
+                res.ob('R20', where, '%s: recursive call %s the guard %s' % (
+                    fn.qualname, 'forwards' if ok else 'drops', p_),
+                    'ok' if ok else 'VIOLATED')
+                if not ok:
+                    res.finding('R20', '%s|cycle-guard-dropped|%s' % (
+                        fn.qualname, p_), where, 'the recursive call %s '
+                        'starts with an empty %s: a reference cycle that '
+                        'passes through this call is no longer detected and '
+                        'the request ends in RecursionError, not in a client '
+                        'fault' % (unparse(c)[:50], p_))
+    res.floor('R20', 'recursive calls of guarded walkers', n, 2)
+
+
 def run(prog, res, tier):
     res.run_rule(rule_r8, prog, res)
     res.run_rule(rule_r7, prog, res)
@@ -1272,6 +1320,7 @@ def run(prog, res, tier):
     res.run_rule(rule_r17, prog, res)
     res.run_rule(rule_r18, prog, res)
     res.run_rule(rule_r19, prog, res)
+    res.run_rule(rule_r20, prog, res)
     res.run_rule(rule_r4, prog, res, tier)
     res.run_rule(rule_r5, prog, res)
     res.run_rule(rule_r6, prog, res, tier)
@@ -1289,6 +1338,12 @@ _H = 'spyne/protocol/dictdoc/hier.py'
 _MI = 'spyne/protocol/soap/mime.py'
 
 MUTANTS = [
+    Mutant('href-descent-drops-cycle-guard', 'R20', 'fire',
+           'spyne/protocol/soap/soap11.py',
+           in_func('resolve_hrefs',
+                   "            resolve_hrefs(e, xmlids, _resolving)",
+                   "            resolve_hrefs(e, xmlids)"),
+           'cycle-guard-dropped'),
     Mutant('urlsafe-text-encoded-inside-try', 'R19', 'fire',
            'spyne/model/binary.py',
            in_func('ByteArray.from_urlsafe_base64',
